@@ -63,6 +63,10 @@ int32_t HG_gev[2];
  * pointer then has a symbolic offset into the table); variants built with -DHT_ANYBUCKET lift this */
 static uint32_t ht_probe_bucket(const char *k)
 {
+#ifdef HT_BUCKET
+	/* the spliced case split in the real code assumes hash(k) == HT_BUCKET; no need to compute it twice */
+	return HT_BUCKET;
+#endif
 	uint32_t b = qb_hash_string(k, HT_ORDER);
 	ASSUME(b < HT_NB);   /* proved for every key and order in unit map.ht_hash */
 #ifdef HT_BUCKET
@@ -99,7 +103,11 @@ static void ht_add_node(struct hash_table *t, unsigned i, uint32_t bucket, unsig
 	HG[i].n = n;
 	HG[i].bucket = bucket;
 	HG[i].key = verif_key_new();
+#ifdef HT_NODE_KEYS_HASHED
 	ASSUME(qb_hash_string(HG[i].key, HT_ORDER) == bucket);   /* WF: a node lives in the bucket of its key */
+#endif
+	/* (by default the states are a SUPERSET of the well-formed ones: node keys need not hash to their bucket;
+	 *  no operation re-hashes a node's key, and every 32-bit multiplication costs ~4000 SAT variables per case) */
 	verif_key_register(HG[i].key, rank);                          /* WF: keys are pairwise distinct (distinct ranks) */
 	HG[i].value = verif_value_new();
 	HG[i].present = nd_present;
@@ -329,7 +337,9 @@ static void ht_check_notified_deferred(void)
 #define HT_B1 2
 #define HT_B2 5
 unsigned HG_n1;   /* ghost nodes 0..HG_n1-1 are in HT_B1 (list order), HG_n1..HG_n-1 in HT_B2 (list order) */
-static struct hash_table *ht_build2(unsigned n1, unsigned n2, unsigned gnot, unsigned nnot)
+/* pos: index of the node an iterator under test is parked on (-1: none); that node gets the concrete
+ * ghost (x_present, x_iters), every other node an arbitrary one */
+static struct hash_table *ht_build2(unsigned n1, unsigned n2, unsigned gnot, unsigned nnot, int pos, int x_present, int x_iters)
 {
 	unsigned i;
 	struct hash_table *t;
@@ -337,6 +347,7 @@ static struct hash_table *ht_build2(unsigned n1, unsigned n2, unsigned gnot, uns
 
 	verif_alloc_fail = 0;
 	verif_not_reset();
+	verif_keys_reset();
 	st = malloc(sizeof(struct ht_storage));
 	ASSUME(st != NULL);
 	t = &st->t;
@@ -360,7 +371,11 @@ static struct hash_table *ht_build2(unsigned n1, unsigned n2, unsigned gnot, uns
 	HG_n1 = n1;
 	HG_n = n1 + n2;
 	for (i = 0; i < n1 + n2; i++) {
-		ht_add_node(t, i, i < n1 ? HT_B1 : HT_B2, nnot, (int)i + 1, -1, -1);
+		if ((int)i == pos) {
+			ht_add_node(t, i, i < n1 ? HT_B1 : HT_B2, nnot, (int)i + 1, x_present, x_iters);
+		} else {
+			ht_add_node(t, i, i < n1 ? HT_B1 : HT_B2, nnot, (int)i + 1, -1, -1);
+		}
 	}
 	HG_other = 0;
 	t->count = ht_ghost_present();
@@ -392,3 +407,34 @@ static struct hash_table *ht_build2(unsigned n1, unsigned n2, unsigned gnot, uns
 #ifndef HT_CASE_TO
 #define HT_CASE_TO 1000
 #endif
+
+/* case enumeration of the two-bucket states for the iterator units: n1, n2 in 0..2 nodes, the iterator under
+ * test fresh (-1) or parked on node pos, that node (present, parked iterators) in {(1,1), (0,1), (1,2)},
+ * notifiers {none, full}: CALL(n1, n2, gnot, nnot, pos, x_present, x_iters) */
+#define HT_ENUM_ITER_CASES(nd_case, CALL) do { \
+	unsigned c_ = 0, a_, b_, t_, x_; int p_; \
+	for (a_ = 0; a_ <= 2; a_++) { \
+		for (b_ = 0; b_ <= 2; b_++) { \
+			for (p_ = -1; p_ < (int)(a_ + b_); p_++) { \
+				for (x_ = 0; x_ < (p_ < 0 ? 1u : 3u); x_++) { \
+					for (t_ = 0; t_ < 2; t_++) { \
+						if (c_ >= HT_CASE_FROM && c_ < HT_CASE_TO && (nd_case) == c_) { \
+							CALL(a_, b_, t_ * 2, t_, p_, (x_ == 1 ? 0 : 1), (x_ == 2 ? 2 : 1)); \
+						} \
+						c_++; \
+					} \
+				} \
+			} \
+		} \
+	} \
+} while (0)
+
+static struct hashtable_iter *ht_iter_new(struct hash_table *t, int pos)
+{
+	struct hashtable_iter *hi = malloc(sizeof(*hi));
+	ASSUME(hi != NULL);
+	hi->i.m = &t->map;
+	hi->node = pos < 0 ? NULL : HG[pos].n;
+	hi->bucket = pos < 0 ? 0 : HG[pos].bucket;
+	return hi;
+}
